@@ -40,7 +40,7 @@ var adjStmts = []string{
 	"func(x) { x }", "func g(x) { x }", "if a { 1 }", "if a { 1 } else { 2 }", "for a { 1 }", "return", "return 1", "break", "(a)", "(a + b) * c", "len(a)",
 	"true", "1e5", "0x1", "e5", "x1", "`r`", "a = [1]", "a = {1:2}", "a = func() { 1 }", "quote(a)", "1.", "0", "0.5", "9", "b1", "_",
 	// statements whose printed form starts with a parenthesis the printer adds or keeps
-	"(1).k", "(1)[0]", "(x => x)(1)", "(-a).k", "(a + b)[0]", "(99999999999999999999).k", "99999999999999999999",
+	"(1).k", "(1)[0]", "(x => x)(1)", "(-a).k", "(a + b)[0]", "(99999999999999999999).k", "99999999999999999999", "1..k", "2.5.k", "1e3.k",
 }
 
 var corpusLiterals = func() []string {
